@@ -138,6 +138,64 @@ S_CORE = ["Any", "NoReturn", "None", "object", "A", "B", "D", "E", "G", "H", "in
           "Union[Literal[1], int, Literal[2]]", "Union[object, A]", "Tuple[int]", "Tuple[A, B]", "Tuple[bool, int]",
           "Tuple[int, ...]", "Tuple[Any, ...]", "Tuple[B, Any]", "Tuple[object, NoReturn]", "Sequence[int]", "Sequence[object]",
           "Iterable[B]"] + ADVERSARIAL
+# universe of the cache-key oracle (flag settings asked one after the other on the same pair)
+FLAGS_UNI = ["List[bool]", "List[int]", "List[float]", "List[object]", "List[Any]", "Inv[bool]", "Inv[int]", "Inv[float]",
+             "Co[bool]", "Co[int]", "Contra[int]", "Contra[float]", "Dict[str, bool]", "Dict[str, int]", "Pair[bool, int]",
+             "Pair[int, int]", "Tuple[bool, int]", "Tuple[int, int]", "Sequence[bool]", "Sequence[int]", "int", "bool", "float",
+             "None", "object", "Optional[int]", "Optional[bool]", "List[Optional[int]]", "List[Optional[bool]]",
+             "Callable[[int], int]", "Callable[[bool], int]", "List[Callable[[int], int]]", "List[Callable[[bool], int]]",
+             "TD", "TD2", "NT", "PBox[int]", "PBox[bool]", "BoxImpl[int]", "BoxImpl[bool]", "Literal[1]", "Type[A]", "Type[B]",
+             "List[Tuple[bool, int]]", "List[Tuple[int, int]]"]
+FLAGS_FUNCS = ["f_pos", "f_opt", "fn_a", "fn_b"]
+FLAGS_DEFS = "def fn_a(x: int, y: str) -> bool: raise NotImplementedError\ndef fn_b(p: int, q: str) -> bool: raise NotImplementedError\n"
+
+
+def tuple_universe() -> list[str]:
+    """Variadic tuples with prefixes/suffixes of length 0-2 on both sides, and fixed tuples of length 0-3."""
+    parts = [(), ("int",), ("str",), ("int", "str")]
+    out = []
+    for pre in parts:
+        for suf in parts:
+            for mid in ("int", "object", "str"):
+                items = list(pre) + [f"Unpack[Tuple[{mid}, ...]]"] + list(suf)
+                out.append("Tuple[" + ", ".join(items) + "]")
+    out.append("Tuple[()]")
+    for n in (1, 2, 3):
+        for combo in itertools.product(("int", "str"), repeat=n):
+            out.append("Tuple[" + ", ".join(combo) + "]")
+    out += ["Tuple[object, object]", "Tuple[int, object]", "Sequence[object]", "Sequence[int]", "object"]
+    return out
+
+
+def callable_universe() -> list[str]:
+    """Parameter lists (<= 3 parameters): positional-only / optional / positional / *args / **kwargs / keyword-only."""
+    import ast
+    A = ["", "x: int, /", "x: str, /", "x: str = '', /", "x: int = 0, /"]
+    B = ["", "y: int", "y: int = 0", "y: str"]
+    C = ["", "*args: int", "*args: str"]
+    D = ["", "k: int", "**kw: int"]
+    out = []
+    for a in A:
+        for b in B:
+            for c in C:
+                for d in D:
+                    ps = [x for x in (a, b, c) if x]
+                    if d == "k: int":
+                        ps += (["k: int"] if c else ["*", "k: int"])
+                    elif d:
+                        ps.append(d)
+                    n = sum(1 for x in ps if x != "*") + (0)
+                    if n > 3:
+                        continue
+                    sig = ", ".join(ps)
+                    try:
+                        ast.parse(f"def f({sig}) -> None: ...")
+                    except SyntaxError:
+                        continue
+                    out.append(sig)
+    return list(dict.fromkeys(out))
+
+
 FUNCS = ["f_all", "f_pos", "f_opt", "f_star", "f_kw", "f_gen", "f_bound", "f_ov"]
 
 
@@ -215,8 +273,14 @@ def worker(mode: str, k: int, n: int, seed: int, tier: str) -> None:
 
     quick = tier == "quick"
     core, exotic = gen_universe(seed, quick)
+    tup_uni = tuple_universe()
+    call_uni = callable_universe()
     src = FIXTURE + "\n".join(f"u{i}: {a}" for i, a in enumerate(core)) + "\n" \
         + "\n".join(f"x{i}: {a}" for i, a in enumerate(exotic)) + "\n"
+    if mode in ("flags", "subuni"):
+        src += FLAGS_DEFS + "\n".join(f"z{i}: {a}" for i, a in enumerate(FLAGS_UNI)) + "\n" \
+            + "\n".join(f"w{i}: {a}" for i, a in enumerate(tup_uni)) + "\n" \
+            + "\n".join(f"def hh{i}({a}) -> None: ..." for i, a in enumerate(call_uni)) + "\n"
     o = Options()
     o.incremental = False
     o.cache_dir = os.devnull
@@ -473,6 +537,9 @@ def worker(mode: str, k: int, n: int, seed: int, tier: str) -> None:
     if mode == "pairs":
         idx = [i for i, x in enumerate(UT) if x is not None]
         allpairs = [(i, j) for i in idx for j in idx]
+        if quick:      # quick tier: a seeded 40% sample of the ordered pairs (thorough stays exhaustive)
+            rs = random.Random(f"{seed}/c08-pair-sample")
+            allpairs = [pq for pq in allpairs if pq[0] == pq[1] or rs.random() < 0.4]
         mine = allpairs[k::n]
         OPS = ["sub", "proper", "proper_np", "same", "join", "meet", "simpl"]
 
@@ -595,7 +662,7 @@ def worker(mode: str, k: int, n: int, seed: int, tier: str) -> None:
             out["n_mismatches"] += len(trip_m)
 
     # ------------------------------------------------------------------------------------- mode S
-    if mode == "laws":
+    if mode in ("laws", "flags", "subuni"):
         # whole universe: a subset of the core + everything exotic
         rng = random.Random("c08-laws")          # the S universe and its evaluation order do not depend on the seed
         take = [core.index(a) for a in dict.fromkeys(S_CORE)]
@@ -603,6 +670,13 @@ def worker(mode: str, k: int, n: int, seed: int, tier: str) -> None:
             take = list(range(len(core)))
         W = [U[i] for i in take] + X
         WN = [core[i] for i in take] + xnames
+        if mode == "flags":
+            W = [tree.names[f"z{i}"].node.type for i in range(len(FLAGS_UNI))] + [tree.names[f].node.type for f in FLAGS_FUNCS]  # type: ignore[union-attr]
+            WN = list(FLAGS_UNI) + ["<def " + f + ">" for f in FLAGS_FUNCS]
+        if mode == "subuni":
+            n_tup = len(tup_uni)
+            W = [tree.names[f"w{i}"].node.type for i in range(n_tup)] + [tree.names[f"hh{i}"].node.type for i in range(len(call_uni))]  # type: ignore[union-attr]
+            WN = list(tup_uni) + [f"def ({a})" for a in call_uni]
 
         def has_any(t: mt.Type, depth: int = 0) -> bool:
             if depth > 6:
@@ -674,6 +748,116 @@ def worker(mode: str, k: int, n: int, seed: int, tier: str) -> None:
         def v(law: str, ixs: list[int], detail: str) -> None:
             viol.append({"law": law, "types": [WN[i] for i in ixs], "strs": [str(W[i]) for i in ixs], "detail": detail,
                          "kinds": [kind_tag(W[i]) for i in ixs], "core": [tok(W[i]) is not None for i in ixs]})
+        if mode == "flags":
+            # ------------------------------------------------------------------ cache-key oracle
+            from mypy.state import state as mypy_state
+            SC = ms.SubtypeContext
+
+            def mk(proper: bool, strict: bool = True, **kw: Any) -> Any:
+                def q(a: mt.Type, b: mt.Type) -> bool:
+                    def run() -> bool:
+                        if proper:
+                            return ms.is_proper_subtype(a, b, subtype_context=SC(**kw)) if kw else ms.is_proper_subtype(a, b)
+                        return ms.is_subtype(a, b, **kw)
+                    if strict:
+                        return run()
+                    with mypy_state.strict_optional_set(False):
+                        return run()
+                return q
+            settings = [("sub", mk(False)), ("sub+ignore_type_params", mk(False, ignore_type_params=True)),
+                        ("sub+ignore_pos_arg_names", mk(False, ignore_pos_arg_names=True)),
+                        ("sub+ignore_declared_variance", mk(False, ignore_declared_variance=True)),
+                        ("sub+always_covariant", mk(False, always_covariant=True)),
+                        ("sub+ignore_promotions", mk(False, ignore_promotions=True)),
+                        ("sub+no_strict_optional", mk(False, strict=False)),
+                        ("proper", mk(True)), ("proper+ignore_promotions", mk(True, ignore_promotions=True)),
+                        ("proper+erase_instances", mk(True, erase_instances=True)),
+                        ("proper+keep_erased_types", mk(True, keep_erased_types=True)),
+                        ("proper+ignore_type_params", mk(True, ignore_type_params=True)),
+                        ("proper+always_covariant", mk(True, always_covariant=True)),
+                        ("proper+no_strict_optional", mk(True, strict=False))]
+            ns = len(settings)
+            nq = 0
+            for i in range(m):
+                for j in range(m):
+                    cold = []
+                    for _, q in settings:
+                        reset()
+                        cold.append(safe(q, W[i], W[j]))
+                    for a in range(ns):
+                        for b in range(ns):
+                            if a == b or cold[a] is None or cold[b] is None:
+                                continue
+                            reset()
+                            safe(settings[a][1], W[i], W[j])
+                            got = safe(settings[b][1], W[i], W[j])
+                            nq += 2
+                            if got is not None and got != cold[b]:
+                                v(f"cache_flags[{settings[a][0]}->{settings[b][0]}]", [i, j],
+                                  f"after asking '{settings[a][0]}' the answer to '{settings[b][0]}' is {got}, with cold caches it is {cold[b]}")
+            reset()
+            stat["law_evaluations"] = nq
+            out.update(stat)
+            out["S_universe"] = m
+            out["violations"] = viol
+            out["exception_samples"] = exc
+            out["flag_settings"] = [n for n, _ in settings]
+            print("C08-RESULT " + json.dumps(out, default=str))
+            return
+        if mode == "subuni":
+            # ------------------------------------------------------------------ laws inside the two sub-universes
+            SUBm: dict[tuple[int, int], Any] = {}
+            PROPm: dict[tuple[int, int], Any] = {}
+            for lo, hi in ((0, n_tup), (n_tup, m)):
+                for i in range(lo, hi):
+                    for j in range(lo, hi):
+                        reset()
+                        SUBm[i, j] = safe(ms.is_subtype, W[i], W[j])
+                        reset()
+                        PROPm[i, j] = safe(ms.is_proper_subtype, W[i], W[j])
+                        stat["law_evaluations"] += 2
+                for i in range(lo, hi):
+                    if SUBm[i, i] is False:
+                        v("subtype_refl", [i], "is_subtype(t, t) is False")
+                    if PROPm[i, i] is False:
+                        v("proper_subtype_refl", [i], "is_proper_subtype(t, t) is False")
+                    for j in range(lo, hi):
+                        stat["pairs"] += 1
+                        if PROPm[i, j] and SUBm[i, j] is False:
+                            v("proper_implies_subtype", [i, j], "is_proper_subtype but not is_subtype")
+                        if i < j:
+                            su = safe(mo.make_simplified_union, [W[i], W[j]])
+                            su2 = safe(mo.make_simplified_union, [W[j], W[i]])
+                            raw = mt.UnionType([W[i], W[j]])
+                            stat["law_evaluations"] += 6
+                            if su is not None:
+                                if safe(ms.is_subtype, su, raw) is False or safe(ms.is_subtype, raw, su) is False:
+                                    v("simplified_union_equiv", [i, j], f"simplified={su} not equivalent to the plain union")
+                                if su2 is not None and (safe(ms.is_subtype, su, su2) is False or safe(ms.is_subtype, su2, su) is False):
+                                    v("simplified_union_order", [i, j], f"{su} vs {su2} (items swapped) not equivalent")
+                af2 = [i for i in range(lo, hi) if anyfree[i]]
+                for i in af2:
+                    for j in af2:
+                        if i == j:
+                            continue
+                        sij, pij = SUBm[i, j], PROPm[i, j]
+                        if not sij and not pij:
+                            continue
+                        for l in af2:
+                            if sij and SUBm[j, l]:
+                                stat["triples_anyfree"] += 1
+                                if SUBm[i, l] is False:
+                                    v("subtype_trans", [i, j, l], "a <: b and b <: c but not a <: c (all Any-free)")
+                            if pij and PROPm[j, l] and PROPm[i, l] is False:
+                                v("proper_subtype_trans", [i, j, l], "proper: a <: b and b <: c but not a <: c (all Any-free)")
+            reset()
+            out.update(stat)
+            out["S_universe"] = m
+            out["S_anyfree"] = sum(1 for x in anyfree if x)
+            out["violations"] = viol
+            out["exception_samples"] = exc
+            print("C08-RESULT " + json.dumps(out, default=str))
+            return
         # subtype matrix, cold and warm
         SUB = [[None] * m for _ in range(m)]
         PROP = [[None] * m for _ in range(m)]
@@ -834,6 +1018,83 @@ def law_key(v: dict[str, Any]) -> str:
     return "C08:" + fam + ":" + "+".join(sorted(v["kinds"]))
 
 
+BASELINE = os.path.join(os.path.dirname(os.path.dirname(HERE)), "corpus", "C08", "known_instances.json")
+
+
+def instance_id(v: dict[str, Any]) -> str:
+    return v["law"] + " :: " + " ; ".join(v["strs"])
+
+
+def load_baseline() -> dict[str, list[str]]:
+    """Committed data file (never written by the check): per known class key, the exact violating instances."""
+    try:
+        return json.load(open(BASELINE))["instances"]
+    except FileNotFoundError:
+        return {}
+
+
+def classify(ctx: Any, viols: list[dict[str, Any]]) -> dict[str, int]:
+    """Report violations: a known class (law x kind multiset) absorbs only the instances listed in the baseline;
+    any other instance of that class gets its own key `<class>#new:<hash>`."""
+    import hashlib
+    base = load_baseline()
+    groups: dict[str, list[dict[str, Any]]] = {}
+    for v in viols:
+        k = law_key(v)
+        if k in base and instance_id(v) not in set(base[k]):
+            k = k + "#new:" + hashlib.sha1(instance_id(v).encode()).hexdigest()[:10]
+        groups.setdefault(k, []).append(v)
+    for key, vs in sorted(groups.items()):
+        vs.sort(key=lambda v: (len(" ".join(v["strs"])), v["strs"]))
+        v0 = vs[0]
+        ctx.violation(key, f"{v0['law']} violated ({len(vs)} instances), e.g. on {v0['strs']}: {v0['detail']}",
+                      {"instances": vs[:10], "n": len(vs)})
+    seen = {instance_id(v) for v in viols}
+    gone = sum(1 for k, ids in base.items() for i in ids if i not in seen)
+    ctx.cov["S_baseline_instances"] = sum(len(x) for x in base.values())
+    ctx.cov["S_baseline_instances_not_reproduced"] = gone
+    ctx.cov["S_instances_outside_baseline"] = sum(len(vs) for k, vs in groups.items() if "#new:" in k or law_key(vs[0]) not in base)
+    return {k2: len(v2) for k2, v2 in groups.items()}
+
+
+def s_violations(seed: int, tier: str, timeout: float) -> tuple[list[dict[str, Any]], dict[str, Any], list[str]]:
+    """Run the three S workers; return all violation instances, the results by mode, and failures."""
+    procs = {md: spawn(md, 0, 1, seed, tier) for md in ("laws", "flags", "subuni")}
+    res: dict[str, Any] = {}
+    fails = []
+    viols: list[dict[str, Any]] = []
+    for md, p in procs.items():
+        r = collect_result(p, timeout)
+        if not isinstance(r, dict):
+            fails.append(f"{md}: {r}")
+            continue
+        res[md] = r
+        viols += r["violations"]
+    return viols, res, fails
+
+
+def write_baseline() -> None:
+    """Maintenance command (python tools/harness/C08.py --write-baseline): regenerate the baseline from the tree given
+    by VERIF_REPO for seeds 0,1,2; refuses to write if the seeds disagree."""
+    sets = []
+    for sd in (0, 1, 2):
+        viols, _, fails = s_violations(sd, "quick", 3000)
+        if fails:
+            raise SystemExit("worker failed: " + str(fails))
+        d: dict[str, set[str]] = {}
+        for v in viols:
+            d.setdefault(law_key(v), set()).add(instance_id(v))
+        sets.append(d)
+    if not (sets[0] == sets[1] == sets[2]):
+        raise SystemExit("seeds 0,1,2 disagree; baseline not written")
+    os.makedirs(os.path.dirname(BASELINE), exist_ok=True)
+    with open(BASELINE, "w") as f:
+        json.dump({"comment": "C08: exact violating instances of the known finding classes on the unchanged tree "
+                              "(law :: canonical type strings); generated by tools/harness/C08.py --write-baseline",
+                   "instances": {k: sorted(x) for k, x in sorted(sets[0].items())}}, f, indent=1)
+    print("written", BASELINE, "classes", len(sets[0]), "instances", sum(len(x) for x in sets[0].values()))
+
+
 def run(ctx: Any) -> None:
     import vlib
     ctx.cov["rule"] = ("universe = annotation strings (atoms, every generic class applied to 13 arguments, seeded unions/tuples, "
@@ -852,8 +1113,14 @@ def run(ctx: Any) -> None:
         "InstanceJoiner.seen_instances recursion guard, alt_promote (native ints), strict_optional=False",
         "extraction: ExtrOcamlBasic; OCaml driver tools/ocaml/c08_driver.ml (I/O only)",
     ]
+    # T: which flags enter the subtype-cache key (regenerates coq/gen/SubtypeKind.v, fail-closed)
+    try:
+        from extractors import t08
+        t08.generate()
+    except Exception as e:  # noqa
+        ctx.broke("T", "t08 SubtypeKind extractor", repr(e))
     # P + A
-    ctx.prove("C08/Properties.v", ["C08", "Types", "lib"])
+    ctx.prove("C08/Properties.v", ["C08", "Types", "gen", "lib"])
     # model
     exe = vlib.build_extracted("c08", "C08/Extract.v", "tools/ocaml/c08_driver.ml")
     if exe is None:
@@ -862,7 +1129,7 @@ def run(ctx: Any) -> None:
     nw = 10
     t = time.time()
     procs = [spawn("pairs", k, nw, ctx.seed, ctx.tier) for k in range(nw)]
-    procs_s = [spawn("laws", 0, 1, ctx.seed, ctx.tier)]
+    procs_s = {md: spawn(md, 0, 1, ctx.seed, ctx.tier) for md in ("laws", "flags", "subuni")}
     tot: dict[str, int] = {}
     n_mism = 0
     for k, p in enumerate(procs):
@@ -901,10 +1168,22 @@ def run(ctx: Any) -> None:
     ctx.cov["distinct_nontrivial"] = tot.get("nontrivial", 0) + tot.get("true_sub", 0)
     ctx.log(f"C: {tot} mismatches={n_mism} ({time.time()-t:.1f}s)")
     # S
-    for p in procs_s:
+    all_viol: list[dict[str, Any]] = []
+    for md, p in procs_s.items():
         r = collect_result(p, 900 if ctx.quick else 1700)
         if not isinstance(r, dict):
-            ctx.broke("S", "laws worker", str(r))
+            ctx.broke("S", md + " worker", str(r))
+            continue
+        all_viol += r["violations"]
+        ctx.add("evaluations", r["law_evaluations"] + r["triples_anyfree"])
+        ctx.cov[f"S_{md}_universe"] = r["S_universe"]
+        ctx.cov[f"S_{md}_evaluations"] = r["law_evaluations"] + r["triples_anyfree"]
+        ctx.cov[f"S_{md}_exceptions"] = r["exceptions"]
+        ctx.log(f"S[{md}]: universe={r['S_universe']} evaluations={r['law_evaluations']} triples={r['triples_anyfree']} "
+                f"violations={len(r['violations'])} exceptions={r['exceptions']} ({time.time()-t:.1f}s)")
+        if md == "flags":
+            ctx.cov["S_flag_settings"] = r.get("flag_settings")
+        if md != "laws":
             continue
         ctx.cov["S_universe"] = r["S_universe"]
         ctx.cov["trans_refuted_witness_on_mypy"] = r.get("trans_witness")
@@ -920,42 +1199,28 @@ def run(ctx: Any) -> None:
             ctx.broke("C", "subtype_trans_refuted replay",
                       f"the model's transitivity counterexample (Uno <: Literal[Uno.X]|Never <: Literal[Uno.X]) does not behave the same on mypy: {r.get('trans_witness')}")
         ctx.cov["S_anyfree"] = r["S_anyfree"]
-        ctx.cov["S_law_evaluations"] = r["law_evaluations"]
-        ctx.cov["S_triples_anyfree"] = r["triples_anyfree"]
-        ctx.cov["S_exceptions"] = r["exceptions"]
         ctx.cov["S_exception_samples"] = r["exception_samples"][:3]
-        ctx.add("evaluations", r["law_evaluations"] + r["triples_anyfree"])
-        groups: dict[str, list[dict[str, Any]]] = {}
-        for v in r["violations"]:
-            groups.setdefault(law_key(v), []).append(v)
-        for key, vs in sorted(groups.items()):
-            vs.sort(key=lambda v: (len(" ".join(v["strs"])), v["strs"]))
-            v0 = vs[0]
-            ctx.violation(key, f"{v0['law']} violated ({len(vs)} instances), e.g. on {v0['strs']}: {v0['detail']}",
-                          {"instances": vs[:10], "n": len(vs)})
-        ctx.cov["S_violation_groups"] = {k2: len(v2) for k2, v2 in groups.items()}
         ctx.sample({"S_law_sample": "join_upper_l/r, meet_lower_l/r, simplified_union_equiv on all pairs", "universe": r["S_universe"]})
-        ctx.log(f"S: universe={r['S_universe']} anyfree={r['S_anyfree']} evaluations={r['law_evaluations']} "
-                f"triples={r['triples_anyfree']} violations={len(r['violations'])} exceptions={r['exceptions']} ({time.time()-t:.1f}s)")
+    ctx.cov["S_violation_groups"] = classify(ctx, all_viol)
 
 
 def replay(ctx: Any, path: str) -> None:
     """Re-evaluate a recorded law violation on the current tree."""
-    import vlib
     data = json.load(open(path))
-    rp = data.get("replay", {})
-    p = spawn("laws", 0, 1, data.get("seed", 0), data.get("tier", "quick"))
-    r = collect_result(p, 1700)
-    if not isinstance(r, dict):
-        ctx.broke("S", "replay", str(r))
-        return
-    for v in r["violations"]:
-        if law_key(v) == data.get("key"):
-            ctx.violation(law_key(v), f"{v['law']} violated on {v['strs']}: {v['detail']}", v)
+    viols, _, fails = s_violations(data.get("seed", 0), data.get("tier", "quick"), 1700)
+    for fmsg in fails:
+        ctx.broke("S", "replay", fmsg)
+    want = data.get("key", "")
+    ids = {instance_id(x) for x in data.get("replay", {}).get("instances", [])}
+    for v in viols:
+        if law_key(v) == want.split("#new:")[0] and (not ids or instance_id(v) in ids):
+            ctx.violation(want, f"{v['law']} violated on {v['strs']}: {v['detail']}", v)
             return
-    ctx.log("replay: the recorded violation does not reproduce", rp)
+    ctx.log("replay: the recorded violation does not reproduce")
 
 
 if __name__ == "__main__":
+    if len(sys.argv) == 2 and sys.argv[1] == "--write-baseline":
+        write_baseline()
     if len(sys.argv) >= 7 and sys.argv[1] == "--worker":
         worker(sys.argv[2], int(sys.argv[3]), int(sys.argv[4]), int(sys.argv[5]), sys.argv[6])
